@@ -14,6 +14,30 @@ import os, itertools, re, shutil, time
 from .. import common as C
 
 AREA = "gc"
+import threading
+_DRV_LOCK = threading.Lock()
+
+
+def model_exe(ctx):
+    """the compiled Lean driver, built once per check run and copied to the scratch directory (C.run_driver runs
+    `lake build` on every call: far too slow for the shrinker, which runs the model hundreds of times)"""
+    with _DRV_LOCK:
+        exe = getattr(ctx, "_c07_drv", None)
+        if exe is None:
+            exe = os.path.join(ctx.scratch, "hawkdrv-c07")
+            shutil.copy(C.driver_exe(ctx), exe)
+            ctx._c07_drv = exe
+        return exe
+
+
+def run_model(ctx, lines, timeout=600):
+    exe = model_exe(ctx)
+    rc, out, err = C.sh([exe, AREA], input_=("\n".join(lines) + "\n").encode(), timeout=timeout)
+    if rc != 0:
+        raise RuntimeError("lean driver %s rc=%s: %s" % (AREA, rc, err.decode(errors="replace")[-2000:]))
+    return out.decode(errors="replace").split("\n")[:-1]
+
+
 PREALLOC_CLI = 2   # hawk_rtx_openstd creates the ARGV and ENVIRON maps before the program starts
 
 
@@ -93,6 +117,9 @@ def in_contract(h):
                 T.kids[a[0]] = []
         elif k == "root":
             T.holders[a[0]] += 1
+        elif k == "take":
+            if a[1] in T.kids[a[0]]:
+                T.holders[a[1]] += 1
         T.prune()
     return True
 
@@ -131,7 +158,7 @@ def gen_history(rng, n, profile=None):
             if not young or (not old and z < 0.3):
                 if old or z < 0.5:
                     age[T.alloc()] = 0
-                    lines.append("alloc %s" % rng.choice(["m", "m", "a"]))
+                    lines.append("alloc %s" % rng.choice(["m", "m", "a", "a", "d"]))
                 else:
                     lines.append("gc %d" % rng.choice([0, 0, 1]))
                     for i in age:
@@ -158,7 +185,7 @@ def gen_history(rng, n, profile=None):
             continue
         if not R or (k < 0.22 and len(R) < maxlive) or (k < 0.05):
             age[T.alloc()] = 0
-            lines.append("alloc %s" % rng.choice(["m", "m", "a"]))
+            lines.append("alloc %s" % rng.choice(["m", "m", "a", "a", "d"]))
         elif k < 0.50:
             p = rng.choice(R)
             if prof == "cycles" and rng.random() < 0.5:
@@ -190,9 +217,15 @@ def gen_history(rng, n, profile=None):
                 T.kids[p] = []
                 lines.append("clear %d" % p)
         elif k < 0.72:
-            o = rng.choice(R)
+            ps = [p for p in R if T.kids[p]]
+            if ps and rng.random() < 0.5:        # the reference is taken to an element fetched through the API
+                p = rng.choice(ps)
+                o = rng.choice(T.kids[p])
+                lines.append("take %d %d" % (p, o))
+            else:
+                o = rng.choice(R)
+                lines.append("root %d" % o)
             T.holders[o] = T.holders.get(o, 0) + 1
-            lines.append("root %d" % o)
         elif k < 0.87:
             if held:
                 o = rng.choice(held)
@@ -214,7 +247,7 @@ def gen_history(rng, n, profile=None):
 def exhaustive_small(tier):
     """every sequence over a small alphabet after fixed prefixes (one object older than the other, or both young)"""
     alpha_full = ["gc 0", "gc 1", "gc 2", "link 0 1", "link 1 0", "link 1 1", "unlink 1 0", "drop 0", "drop 1", "root 0",
-                  "alloc a", "clear 1", "relink 1 0 0"]
+                  "alloc a", "clear 1", "relink 1 0 0", "take 1 0"]
     alpha_red = ["gc 0", "gc 2", "link 1 0", "link 1 1", "link 0 1", "drop 1", "drop 0"]
     prefixes = [["new", "alloc m", "alloc m"], ["new", "alloc m", "gc 0", "alloc m"], ["new", "alloc a", "gc 1", "alloc a"]]
     out = []
@@ -312,6 +345,10 @@ def oracle(ops, outs):
                     kids[a[0]] = []
                 elif w[0] == "root":
                     holders[a[0]] += 1
+                elif w[0] == "take":
+                    if a[1] not in kids[a[0]]:
+                        raise KeyError("slot")
+                    holders[a[1]] += 1
                 elif w[0] == "drop":
                     holders[a[0]] -= 1
                     if holders[a[0]] < 0:
@@ -392,7 +429,7 @@ def nontrivial_history(ops, mouts):
 def run_both(ctx, exe, lines, wd=20):
     budget = 120 + len(lines) // 20
     rc, cout, cerr = C.run_harness(exe, [str(wd)], lines, timeout=budget, env=C.ASAN_LEAK_ENV)
-    mout = C.run_driver(ctx, AREA, lines, timeout=budget)
+    mout = run_model(ctx, lines, timeout=budget)
     status = C.classify_rc(rc, cerr)
     if cout and cout[-1] == "HANG":
         status = "HANG"
@@ -416,9 +453,18 @@ def normalise(sub):
     return ["new"] + sub + ["close"]
 
 
-def one_history(ctx, exe, h):
+def budgeted(pred, seconds):
+    """shrinker predicate with a wall-clock budget: a violating tree (hangs, slow crashes) must not cost minutes"""
+    t0 = time.time()
+
+    def f(x):
+        return time.time() - t0 < seconds and pred(x)
+    return f
+
+
+def one_history(ctx, exe, h, wd=10):
     """-> dict(corr=first differing index|None, orc=oracle findings, st=status, co, mo, ce)"""
-    co, mo, st, ce = run_both(ctx, exe, h, wd=10)
+    co, mo, st, ce = run_both(ctx, exe, h, wd=wd)
     return dict(corr=C.diff_streams(co, mo), orc=oracle(h, co), st=st, co=co, mo=mo, ce=ce)
 
 
@@ -440,16 +486,27 @@ def api_level(ctx, exe, histories):
             cur, n = [], 0
     if cur:
         batches.append(cur)
-    C.driver_exe(ctx)
+    model_exe(ctx)
+
+    stop = threading.Event()    # a violating tree is decided by its first failing batch: do not wait for 20 more hangs
 
     def run_batch(bs):
         lines = [l for h in bs for l in h]
-        cout, mout, status, cerr = run_both(ctx, exe, lines, wd=30)
+        if stop.is_set():
+            mout = run_model(ctx, lines, timeout=120 + len(lines) // 20)
+            res, pos = [], 0
+            for h in bs:
+                res.append((h, mout[pos:pos + len(h)], mout[pos:pos + len(h)], [], None))   # not run on the implementation
+                pos += len(h)
+            return res, "ok"
+        cout, mout, status, cerr = run_both(ctx, exe, lines, wd=10)
         res, pos = [], 0
         for h in bs:
             co, mo = cout[pos:pos + len(h)], mout[pos:pos + len(h)]
             pos += len(h)
             res.append((h, co, mo, oracle(h, co), C.diff_streams(co, mo)))
+        if status != "ok" or any(r[3] for r in res):
+            stop.set()
         return res, status
     from concurrent.futures import ThreadPoolExecutor
     with ThreadPoolExecutor(max_workers=8) as ex:
@@ -482,9 +539,9 @@ def api_level(ctx, exe, histories):
         def fails_prop(sub):
             if not in_contract(normalise(sub)):
                 return False
-            r = one_history(ctx, exe, normalise(sub))
+            r = one_history(ctx, exe, normalise(sub), wd=3)
             return r["st"] != "ok" or bool(r["orc"])
-        small = normalise(C.ddmin(first_orc, fails_prop, max_tests=200))
+        small = normalise(C.ddmin(first_orc, budgeted(fails_prop, 40), max_tests=200))
         r = one_history(ctx, exe, small)
         if r["st"] == "ok" and not r["orc"]:
             small = first_orc
@@ -494,8 +551,9 @@ def api_level(ctx, exe, histories):
         # gc_trace_refs) predict exactly this behaviour?
         note = ""
         try:
-            lo = C.run_driver(ctx, AREA, ["new legacy" if l == "new" else l for l in small])
-            if [x for x, l in zip(lo, small) if l != "close"] == [x for x, l in zip(r["co"], small) if l != "close"]:
+            lo = run_model(ctx, ["new legacy" if l == "new" else l for l in small])
+            strip = lambda out: [x for x, l in zip(out, small) if l != "close"]
+            if strip(lo) == strip(r["co"]) and strip(lo) != strip(r["mo"]):
                 note = " [the implementation behaves line by line like the model of the unrepaired code: stale GCH_MOVED decremented to GCH_UNREACHABLE by gc_trace_refs, see patches/gc-stale-gcrefs.diff]"
         except Exception:
             pass
@@ -509,7 +567,7 @@ def report_api_corr(ctx, exe, first_corr):
     if True:
         def fails_corr(sub):
             return in_contract(normalise(sub)) and one_history(ctx, exe, normalise(sub))["corr"] is not None
-        small = normalise(C.ddmin(first_corr, fails_corr, max_tests=200))
+        small = normalise(C.ddmin(first_corr, budgeted(fails_corr, 40), max_tests=200))
         r = one_history(ctx, exe, small)
         if r["corr"] is None:
             small = first_corr
@@ -550,7 +608,7 @@ def gen_abstract(rng, n):
             if not young or (not old and z < 0.25):
                 if old or z < 0.5 or not young:
                     v = rng.choice([x for x in range(NVARS) if x not in old] or list(range(NVARS)))
-                    ops.append(("new", v, rng.choice(["map", "array", "array", "idx", "call"])))
+                    ops.append(("new", v, rng.choice(["map", "array", "array", "idx", "call", "data-array", "data-map"]), rng.randrange(NVARS), rng.randrange(NVARS)))
                     young.add(v)
                     old.discard(v)
                 else:
@@ -571,11 +629,11 @@ def gen_abstract(rng, n):
                 young = set()
             continue
         if k < 0.20:
-            ops.append(("new", v, rng.choice(["map", "array", "array", "idx", "call"])))
+            ops.append(("new", v, rng.choice(["map", "array", "array", "idx", "call", "data-array", "data-map"]), rng.randrange(NVARS), rng.randrange(NVARS)))
             young.add(v)
             old.discard(v)
         elif k < 0.45:
-            ops.append(("link", v, w, rng.random() < 0.2))      # True: the store is done by a callee (containers as arguments)
+            ops.append(("link", v, w, rng.choice([0, 0, 0, 0, 0, 0, 0, 1, 1, 2])))   # 1: the store is done by a callee, 2: by a callee invoked through hawk::call
         elif k < 0.50:
             ops.append(("linkpath", v, w, rng.randrange(4)))
         elif k < 0.57:
@@ -594,10 +652,16 @@ def gen_abstract(rng, n):
             ops.append(("nil", v))
             young.discard(v)
             old.discard(v)
-        elif k < 0.97:
+        elif k < 0.94:
             ops.append(("gc", rng.choice(GC_ARGS + ["none"])))
             old |= young
             young = set()
+        elif k < 0.96:
+            # a loop that makes cyclic garbage referring to a held container: collections are triggered by allocation
+            # pressure alone (with the default thresholds 100/20/10 when the count is large, as in real programs)
+            ops.append(("churn", rng.choice([3, 10, 10, 40, 40, 120, 120, 300] + ([2300] if rng.random() < 0.15 else [])), v))
+        elif k < 0.97:
+            ops.append(("observe", v))
         else:
             ops.append(("thr", rng.choice([-1, 0, 1, 2, 5]), rng.choice([-3, 0, 1, 2, 3, 50])))
     # the way the program ends, and (for exit / error) the place where the end strikes: see END_CONTEXTS
@@ -636,6 +700,8 @@ END_CONTEXTS = [
     '{K}[{F}] = {K};',                                 # index expression
     'holdfail_({K}, {H});',                            # locals (map and array, cyclic) alive in the frame that fails
     'vtmp_ = f3_(mk_(1), mk2_(2), {F}) f2_("z", 1);',  # two fresh containers before the failing argument
+    'hawk::call("f3_", "first-" vzero, mk2_(3), {F});', # the call is made through hawk::call (its own argument pushing)
+    'vtmp_ = hawk::array(mk_(4), "s-" vzero, {F});',    # container constructor with a failing later argument
 ]
 
 
@@ -724,12 +790,23 @@ def render(aops):
             nid[0] += 1
             T.alloc()
             slots[i] = []
-            isarr[i] = (how == "array")
-            model.append("alloc %s" % ("a" if how == "array" else "m"))
+            isarr[i] = how in ("array", "data-array")
+            model.append("alloc %s" % ("a" if isarr[i] else "m"))
             if how == "idx":
                 stmts.append("v%d[1] = 1;" % v)
             elif how == "call":
                 stmts.append("v%d = mk_(%d);" % (v, i))
+            elif how in ("data-array", "data-map"):
+                # the constructors store their arguments: hawk::array(x, y) fills indices 1, 2; hawk::map(k, x, ...) the keys
+                srcs = [w for w in dict.fromkeys(a[3:5]) if var[w] is not None][:2] if len(a) > 4 else []
+                args = []
+                for n, w in enumerate(srcs):
+                    key = (1 + n) if isarr[i] else (2 + n)
+                    slots[i].append((key, var[w]))
+                    T.kids[i].append(var[w])
+                    model.append("link %d %d" % (i, var[w]))
+                    args.append("v%d" % w if isarr[i] else "%d, v%d" % (key, w))
+                stmts.append("v%d = hawk::%s(%s);" % (v, "array" if isarr[i] else "map", ", ".join(args)))
             else:
                 stmts.append("v%d = hawk::%s(); v%d[1] = \"leaf\" %d;" % (v, how, v, i))
             if old is not None:
@@ -743,7 +820,9 @@ def render(aops):
             slots[p].append((key, c))
             T.kids[p].append(c)
             model.append("link %d %d" % (p, c))
-            if len(a) > 3 and a[3]:
+            if len(a) > 3 and a[3] == 2:
+                stmts.append("hawk::call(\"lnk_\", v%d, v%d, %d);" % (a[1], a[2], key))
+            elif len(a) > 3 and a[3]:
                 stmts.append("lnk_(v%d, v%d, %d);" % (a[1], a[2], key))
             else:
                 stmts.append("v%d[%d] = v%d;" % (a[1], key, a[2]))
@@ -826,6 +905,27 @@ def render(aops):
             drop(old)
             var[a[1]] = None
             stmts.append("v%d = @nil;" % a[1])
+        elif k == "churn":
+            n, kv = a[1], var[a[2]]
+            for _ in range(n):
+                j = nid[0]
+                nid[0] += 1
+                T.alloc()
+                slots[j] = []
+                isarr[j] = False
+                model.append("q alloc m")          # q: executed by the driver without a dump line
+                if kv is not None:
+                    model.append("q link %d %d" % (j, kv))
+                model.append("q link %d %d" % (j, j))
+                model.append("q drop %d" % j)
+                T.holders[j] -= 1
+                T.prune()
+            model.append("thr 0 -1")                  # changes nothing; makes the driver dump the state after the loop
+            stmts.append("for (i_ = 0; i_ < %d; i_++) { t_[1] = %s; t_[2] = t_; t_ = @nil; }" % (n, ("v%d" % a[2]) if kv is not None else "i_"))
+        elif k == "observe":
+            i = var[a[1]]
+            stmts.append('print "O", hawk::ismap(v%d), hawk::isarray(v%d), hawk::isnil(v%d), hawk::typename(v%d), hawk::function_exists("lnk_");' % ((a[1],) * 4))
+            plan.append(("O", "O 0 0 1 nil 1" if i is None else ("O 0 1 0 array 1" if isarr[i] else "O 1 0 0 map 1"), len(model)))
         elif k == "gc":
             if a[1] == "none":
                 model.append("gc -1")
@@ -867,7 +967,7 @@ def render(aops):
         status()
     # variables that were dropped while others still refer to their objects are handled by the model;
     # `slots` of objects that died are never used again because no variable names them
-    names = ", ".join("v%d" % i for i in range(NVARS)) + ", vzero, vtmp_"
+    names = ", ".join("v%d" % i for i in range(NVARS)) + ", vzero, vtmp_, i_, t_"
     body = "  vzero = 0;\n" + "\n".join("  " + s for s in stmts)
     if storage == "global":      # variables in the global slots of the runtime stack (released by refdown_globals)
         prog = "@global " + names + ";\n" + PRELUDE + "BEGIN {\n" + body + "\n}\n"
@@ -895,6 +995,8 @@ def expected_cli(plan, mout):
             exp.append("S " + " ".join(vals) + " %d %d %d" % (d["p"][0], d["p"][1], d["p"][2]))
         elif p[0] == "R":
             exp.append("G " + d["r"])
+        elif p[0] == "O":
+            exp.append(p[1])
         else:
             exp.append("G %s %s" % (d["r"], d["r"]))
     return exp
@@ -959,11 +1061,11 @@ def cli_case(ctx, hawk, aops, tag="0", rendered=None, mout=None):
     prog, model, plan = rendered or render(aops)
     rc, out, err, st = run_cli(hawk, prog, ctx.scratch, tag)
     if mout is None:
-        mout = C.run_driver(ctx, AREA, model)
+        mout = run_model(ctx, model)
     exp = expected_cli(plan, mout)
     end = aops[-1][1] if aops and aops[-1][0] == "end" else "normal"
     ok_status = (st == "ok") if end in ("normal", "dropall") else (st in ("EXIT3",) if end == "exit" else (st == "EXIT255" and "divide by zero" in err))
-    got = [l for l in out if l.startswith("S ") or l.startswith("G ")]
+    got = [l for l in out if l.startswith(("S ", "G ", "O "))]
     d = C.diff_streams(got, exp)
     if d is None and not ok_status:
         d = len(got)
@@ -1015,7 +1117,7 @@ def cli_level(ctx, libdir, ncases, defer_corr_to_after):
     rendered = [render(a) for a in cases]
     # one driver run for all programs (each model script starts with `new`)
     allm = [l for r in rendered for l in r[1]]
-    allout = C.run_driver(ctx, AREA, allm, timeout=120 + len(allm) // 20)
+    allout = run_model(ctx, allm, timeout=120 + len(allm) // 20)
     mouts, pos = [], 0
     for r in rendered:
         mouts.append(allout[pos:pos + len(r[1])])
@@ -1032,7 +1134,7 @@ def cli_level(ctx, libdir, ncases, defer_corr_to_after):
     first_corr = next((a for a, r in zip(cases, results) if r["corr"] is not None), None)
     if first_orc is not None:
         body, endop = first_orc[:-1], first_orc[-1]
-        small = C.ddmin(body, lambda sub: bool(cli_case(ctx, hawk, list(sub) + [endop], "s")["orc"]), max_tests=120)
+        small = C.ddmin(body, budgeted(lambda sub: bool(cli_case(ctx, hawk, list(sub) + [endop], "s")["orc"]), 40), max_tests=120)
         r = cli_case(ctx, hawk, list(small) + [endop], "s")
         if not r["orc"]:
             small = body
@@ -1041,7 +1143,7 @@ def cli_level(ctx, libdir, ncases, defer_corr_to_after):
             len(small), endop[1], r["st"], "; ".join("output line %d: %s" % x for x in r["orc"][:3])), cli_text(r), found_input=True)
     elif first_corr is not None and not defer_corr_to_after["api"]:
         body, endop = first_corr[:-1], first_corr[-1]
-        small = C.ddmin(body, lambda sub: cli_case(ctx, hawk, list(sub) + [endop], "s")["corr"] is not None, max_tests=120)
+        small = C.ddmin(body, budgeted(lambda sub: cli_case(ctx, hawk, list(sub) + [endop], "s")["corr"] is not None, 40), max_tests=120)
         r = cli_case(ctx, hawk, list(small) + [endop], "s")
         if r["corr"] is None:
             small = body
@@ -1053,6 +1155,128 @@ def cli_level(ctx, libdir, ncases, defer_corr_to_after):
                         len(small), endop[1], r["st"], r["got"][k] if k < len(r["got"]) else "<none>",
                         r["exp"][k] if k < len(r["exp"]) else "<none>", k), cli_text(r), found_input=False)
     return evals, ends
+
+
+
+# ----------------------------------------------------------------------------------------------
+# language level, second family: values handed from one holder to the next (leaf values: floats, boxed integers,
+# strings; fields of the record as holders).  A value produced by an increment / decrement / assignment form on a
+# variable, a container element or a FIELD is kept by the program and must still be the same value after the
+# free lists and caches have been churned: a result that was released on its way (returned with no reference held
+# and passed through a conversion that takes and drops one) is handed out again by the next allocation and changes
+# under its holder.  ASan does not see this class (floats and boxed integers live in chunks with their own free
+# lists, freed strings go to a cache), so the oracle is the program's own output: line B must repeat line A, and
+# the identity between the result and the target (an AWK-level truth) must print 1; plus ASan/LeakSanitizer status.
+# ----------------------------------------------------------------------------------------------
+VF_PRELUDE = """function use_(x_) { return x_; }
+function hold_(a_, b_) { return a_; }
+function churn_() { @local i_, f_, g_, s_, b_; for (i_ = 0; i_ < 60; i_++) { f_ = i_ + 0.5; g_ = f_ * 1.25; s_ = "c" i_; s_ = s_ s_ s_; b_ = 4611686018427387904 + i_; } return 0; }
+"""
+VF_TARGETS = [      # (name, statements that give the target the value {V}, the target expression, positional?)
+    ("variable", 'x = {V};', 'x', False),
+    ("map element", 'm["k"] = {V};', 'm["k"]', False),
+    ("array element", 'a = hawk::array(); a[2] = {V};', 'a[2]', False),
+    ("nested element", 'm["k"][3] = {V};', 'm["k"][3]', False),
+    ("field", '$0 = "f1 f2 f3"; $2 = {V};', '$2', True),
+    ("field by expression", '$0 = "f1 f2 f3"; two = 2; $2 = {V};', '$(two)', True),
+    ("last field", '$0 = "f1 f2 f3"; $NF = {V};', '$NF', True),
+    ("record", '$0 = {V};', '$0', True),
+    ("field beyond NF", '$0 = "f1"; $3 = {V};', '$3', True),
+]
+VF_VALUES = ['1.5', '-0.25', '"2.5"', '"abc"', '4611686018427387904', '7', '"  3.5x"']
+VF_FIELDVALUES = ['2.5', 'abc', '4611686018427387904', '0x10', '1e2']   # the field gets its value from the record text
+VF_FORMS = [        # (form with {T}, identity between the result r and the target afterwards with {T})
+    ('++{T}', 'r == {T}'), ('--{T}', 'r == {T}'), ('{T}++', 'r + 1 == {T}'), ('{T}--', 'r - 1 == {T}'),
+    ('{T} += 1.5', 'r == {T}'), ('{T} -= 0.5', 'r == {T}'), ('{T} *= 2', 'r == {T}'), ('{T} /= 2', 'r == {T}'),
+    ('{T} %= 2', 'r == {T}'), ('{T} **= 2', 'r == {T}'), ('{T} = {T} + 0.5', 'r == {T}'), ('{T} = {T} "z"', 'r == {T}'),
+    ('{T} = -{T}', 'r == {T}'), ('{T} = {T}', 'r == {T}'), ('{T} = 0.75', 'r == {T}'), ('{T} = "s-" {T}', 'r == {T}'),
+    ('{T} = 4611686018427387904 + 1', 'r == {T}'),
+]
+VF_USES = ['r = ({F});', 'r = use_(({F}));', 'keep[1] = ({F}); r = keep[1];', 'r = hold_(({F}), churn_());']
+VF_STORAGE = ["named", "local", "global"]
+
+
+def vf_cases():
+    out = []
+    for ti, t in enumerate(VF_TARGETS):
+        vals = [("lit", v) for v in VF_VALUES] + ([("fld", v) for v in VF_FIELDVALUES] if t[0] in ("field", "field by expression") else [])
+        for v in vals:
+            for fi in range(len(VF_FORMS)):
+                for ui in range(len(VF_USES)):
+                    for st in VF_STORAGE:
+                        out.append((ti, v, fi, ui, st))
+    return out
+
+
+def vf_render(case):
+    ti, (vk, v), fi, ui, st = case
+    name, init, T, positional = VF_TARGETS[ti]
+    if vk == "fld":
+        init = '$0 = "f1 %s f3";%s' % (v, " two = 2;" if "two" in init else "")
+    else:
+        init = init.format(V=v)
+    form, ident = VF_FORMS[fi]
+    F = form.format(T=T)
+    if positional:       # a field holds the string the value converts to: compare as the strings both convert to
+        ident = ident.replace("r ", '(r "") ', 1) if False else '((%s) "") == ((%s) "")' % tuple(x.strip() for x in ident.format(T=T).split("=="))
+    else:
+        ident = ident.format(T=T)
+    body = [init, VF_USES[ui].format(F=F), 'print "A", r, %s;' % T, 'churn_();', 'print "B", r, %s;' % T,
+            'print "I", (%s);' % ident, 'r2 = r; r = @nil; churn_(); print "C", r2;']
+    names = "x, m, a, two, r, r2, keep"
+    text = "\n".join("  " + b for b in body)
+    if st == "local":
+        return VF_PRELUDE + "function body_() {\n  @local " + names + ";\n" + text + "\n}\nBEGIN { body_(); }\n"
+    if st == "global":
+        return "@global " + names + ";\n" + VF_PRELUDE + "BEGIN {\n" + text + "\n}\n"
+    return VF_PRELUDE + "BEGIN {\n" + text + "\n}\n"
+
+
+def vf_oracle(out, st, err):
+    """-> list of findings (text); [] = the property holds on this program; None = the program ended with a run-time
+    error of its own (not decided)"""
+    if st in ("ASAN", "UBSAN", "LEAK", "HANG") or st.startswith("SIGNAL"):
+        return ["sanitizer/leak/crash status %s" % st]
+    if st != "ok":
+        return None
+    L = {l.split(" ", 1)[0]: (l.split(" ", 1) + [""])[1] for l in out if l[:2] in ("A ", "B ", "I ", "C ") or l in ("A", "B", "I", "C")}
+    bad = []
+    if L.get("A") != L.get("B"):
+        bad.append("the kept result / the target changed while other values were allocated and released: before %r, after %r (a value was released while a holder still had it)" % (L.get("A"), L.get("B")))
+    if "A" in L and "C" in L and L["A"].split(" ")[0:1] != L["C"].split(" ")[0:1] and " " not in L["C"]:
+        bad.append("the result copied to another variable reads %r, it was %r" % (L.get("C"), L.get("A")))
+    if L.get("I") != "1":
+        bad.append("the result of the form and its target do not agree afterwards (identity printed %r)" % L.get("I"))
+    return bad
+
+
+def valueflow_level(ctx, libdir, n):
+    hawk = os.path.join(ctx.scratch, "hawk-c07")
+    if not os.path.exists(hawk):
+        shutil.copy(os.path.join(libdir, "hawk"), hawk)
+    cases = vf_cases()
+    if n < len(cases):
+        cases = ctx.rng.sample(cases, n)
+    from concurrent.futures import ThreadPoolExecutor
+
+    def run1(a):
+        k, case = a
+        prog = vf_render(case)
+        rc, out, err, st = run_cli(hawk, prog, ctx.scratch, "v%d" % k)
+        return case, prog, out, err, st, vf_oracle(out, st, err)
+    with ThreadPoolExecutor(max_workers=8) as ex:
+        results = list(ex.map(run1, enumerate(cases)))
+    undecided = sum(1 for r in results if r[5] is None)
+    stats = dict(programs=len(results), ended_by_own_runtime_error=undecided)
+    for case, prog, out, err, st, orc in results:
+        if orc:
+            ti, v, fi, ui, stg = case
+            ctx.problem("impl", "value flow: %s on a %s holding %s (%s, %s variables) breaks C07: %s" % (
+                VF_FORMS[fi][0].format(T="T"), VF_TARGETS[ti][0], v[1], VF_USES[ui].format(F="F"), stg, "; ".join(orc)[:500]),
+                "# run: hawk -f <file> with ASAN_OPTIONS=detect_leaks=1 (sanitized build); line B must repeat line A, line I must be 1\n" +
+                prog + "\n# got:\n" + "\n".join(out) + "\n# stderr:\n" + err[-2500:], found_input=True)
+            break
+    return len(results), stats
 
 
 # programs with call frames, locals, returned containers, for-in, nested creation; (program, expected stdout or None)
@@ -1076,6 +1300,8 @@ FIXED_PROGRAMS = [
     ('function g(d) { @local t; t[1]=1; if (d > 0) { t[2]=g(d-1); t[3]=t; } return t; }\nBEGIN { k[1]=1; b = hawk::gcrefs(k); for (i=0;i<40;i++) { x=g(3); x[9]=k; hawk::gc(i%3); } x=@nil; hawk::gc(2); print hawk::gcrefs(k) - b; }\n', "0"),
     # many allocations: collection by pressure with default thresholds, cycles dropped along the way
     ('BEGIN { k[1]=1; b = hawk::gcrefs(k); for (i=0;i<1500;i++) { a[1]=k; a[2]=a; keep[i%7]=a; a=@nil; } hawk::gc(2); print length(keep), hawk::gcrefs(k) - b; }\n', "7 7"),
+    # 25000 allocations with the default thresholds: collections of every generation are triggered by pressure alone
+    ('BEGIN { k[1]=1; b = hawk::gcrefs(k); for (i=0;i<25000;i++) { t[1]=k; t[2]=t; if (i % 1000 == 0) keep[i]=t; t=@nil; } delete keep; hawk::gc(2); print hawk::gcrefs(k) - b; }\n', "0"),
     # for-in over a map holding containers while the loop drops them
     ('BEGIN { k[1]=1; b = hawk::gcrefs(k); for (i=0;i<6;i++) { t[1]=k; t[2]=t; m[i]=t; t=@nil; } for (i in m) { delete m[i]; hawk::gc(0); } hawk::gc(2); print length(m), hawk::gcrefs(k) - b; }\n', "0 0"),
     # split into a container element that is part of a cycle
@@ -1136,16 +1362,21 @@ def run(ctx):
             nontriv.add(tuple(h))
     ncli = 500 if ctx.tier == "quick" else 10000
     cli_evals, ends = (0, {})
+    vf_evals, vf_stats = (0, {})
+    if not ctx.problems:
+        # oracle-only family (leaf values handed from holder to holder, fields as holders); before any correspondence verdict
+        vf_evals, vf_stats = valueflow_level(ctx, libdir, 400 if ctx.tier == "quick" else 10 ** 9)
+        ctx.log("value-flow family done: %d programs" % vf_evals)
     if not ctx.problems:
         # the language-level oracle runs before any correspondence difference is reported
         cli_evals, ends = cli_level(ctx, libdir, ncli, dict(api=api_corr is not None))
     ctx.log("language level done: %d programs" % cli_evals)
     if not ctx.problems and api_corr is not None:
         report_api_corr(ctx, exe, api_corr)
-    evaluations += cli_evals
+    evaluations += cli_evals + vf_evals
     samples = [" ; ".join(h[:14]) for h in list(nontriv)[:3]] + [" ; ".join(histories[-1][:14])]
     return C.finish(ctx, [proof], evaluations, len(nontriv),
-                    "API histories = corpus + every sequence over a 13-op (length 2/3) and a 7-op (length 4/5) alphabet after 3 prefixes "
+                    "API histories = corpus + every sequence over a 14-op (length 2/3) and a 7-op (length 4/5) alphabet after 3 prefixes "
                     "(old+young object) + seeded random histories (profiles mixed/cycles/pressure/deep, <= 45 ops, maps and arrays, "
                     "explicit gc of every generation incl. -1/3/7, threshold changes, 3% unchecked ops) each ending in close; every op's "
                     "return value and the full real state (v_refs, gc_refs incl. sentinels, generation list membership, container elements, "
@@ -1153,10 +1384,14 @@ def run(ctx):
                     "against the ledger/reachability property; plus generated and fixed hawk programs under ASan+LeakSanitizer comparing "
                     "hawk::gcrefs of every variable, of the first container element of every variable's container (read back through the container; elements go to the smallest free index from 0) and the pressure counters after every statement; stores/copies also through user-function calls; exit/error endings strike in 13 expression contexts (later call arguments after fresh strings/maps, built-ins, nested frames with locals, for-in, print, concatenation, index expressions). distinct_nontrivial = distinct API "
                     "histories in which a collection frees an object that has an element in an older generation than the collected one "
-                    "which survives",
+                    "which survives. Further families: allocation loops (`churn`) that trigger collections by pressure alone, also with the default "
+                    "thresholds; containers built by hawk::array(x,..)/hawk::map(k,x,..), stores through hawk::call; API level: "
+                    "hawk_rtx_makemapvalwithdata, elements fetched with getmapvalfld/getarrvalfld/the map iterator (`take`); value-flow "
+                    "family (oracle only): inc/dec/assignment forms x variable/element/field targets x float/string/boxed-int values, "
+                    "result kept across churn of the free lists and caches must not change (line B = line A, identity = 1)",
                     samples,
                     extra_cov=dict(op_distribution=dist, histories=len(histories), exhaustive_histories=nexh, corpus_histories=ncorpus,
-                                   branch_hits=br, cli_programs=cli_evals, cli_endings=ends, impl_status=status),
+                                   branch_hits=br, cli_programs=cli_evals, cli_endings=ends, valueflow=vf_stats, impl_status=status),
                     trusted=["val.c refcount/collector modelled by hand in HawkModel/Gc.lean: containers only (leaf values, the str/mbs/ref "
                              "caches and the int/flt chunk free lists are 'freed' as far as the model goes; their integrity is left to ASan)",
                              "order inside the generation lists and map iteration order are not modelled (only membership is compared)",
@@ -1181,7 +1416,7 @@ def replay(ctx, path):
         exp = re.search(r"^# expected \(from the model\):\n(.*?)^# model ops", txt, re.S | re.M)
         if exp:
             want = exp.group(1).strip().split("\n")
-            got = [l for l in out if l.startswith("S ") or l.startswith("G ")]
+            got = [l for l in out if l.startswith(("S ", "G ", "O "))]
             print("differs from the model's expectation" if got != want else "matches the model's expectation")
             return 1 if (got != want or st not in ("ok", "EXIT3", "EXIT255")) else 0
         return 1 if st != "ok" else 0
